@@ -260,6 +260,113 @@ theorem imageBody_kl (ext : Nat → Nat) (t s : Int) (rn : List (Key × Key)) (q
       | error e => simp only; exact ⟨k, l.reErr⟩
       | ok rc => simp only; exact ⟨k, l.1, by simp⟩
 
+/-- `_copy_bdd` as `_preimage_of` calls it: ANY node, ANY level map (values that are no levels,
+undeclared names), any memo -/
+theorem copyBddK_kl (ext : Nat → Nat) (lm : List (Nat × Key)) :
+    ∀ (fu : Nat) (u : Int) (cache : HashMap Nat Int) (m : Mgr), Inv m → Lite ext m →
+      Kept m (copyBddK lm fu u cache m).2 ∧ LiteOut ext (copyBddK lm fu u cache m) := by
+  intro fu
+  induction fu with
+  | zero =>
+    intro u cache m hI hL
+    exact ⟨Kept.refl hI, hL, by simp [copyBddK]⟩
+  | succ fu ih =>
+    intro u cache m hI hL
+    have base : ∀ {β : Type} (r : Except Err β), r ≠ .error .needsReordering →
+        Kept m ((r, m) : Except Err β × Mgr).2 ∧ LiteOut ext ((r, m) : Except Err β × Mgr) :=
+      fun r hr => ⟨Kept.refl hI, hL, hr⟩
+    unfold copyBddK
+    split
+    · exact base _ (by simp)
+    split
+    · split
+      · exact base _ (by simp)
+      · exact base _ (by simp)
+    split
+    · exact base _ (by simp)
+    split
+    · exact base _ (by simp)
+    next n _ _ =>
+    obtain ⟨k1, l1⟩ := ih n.lo cache m hI hL
+    generalize copyBddK lm fu n.lo cache m = res1 at k1 l1 ⊢
+    obtain ⟨r1, m1⟩ := res1
+    cases r1 with
+    | error e => exact ⟨k1, l1.reErr⟩
+    | ok pc =>
+      obtain ⟨p, c1⟩ := pc
+      simp only
+      obtain ⟨k2, l2⟩ := ih n.hi c1 m1 k1.inv l1.1
+      generalize copyBddK lm fu n.hi c1 m1 = res2 at k2 l2 ⊢
+      obtain ⟨r2, m2⟩ := res2
+      cases r2 with
+      | error e => exact ⟨k1.trans k2, l2.reErr⟩
+      | ok qc =>
+        obtain ⟨q, c2⟩ := qc
+        simp only
+        have k12 : Kept m m2 := k1.trans k2
+        have hI2 := k2.inv
+        have hL2 := l2.1
+        have base2 : ∀ {β : Type} (r : Except Err β), r ≠ .error .needsReordering →
+            Kept m ((r, m2) : Except Err β × Mgr).2 ∧ LiteOut ext ((r, m2) : Except Err β × Mgr) :=
+          fun r hr => ⟨k12, hL2, hr⟩
+        split
+        · exact base2 _ (by simp)
+        split
+        · exact base2 _ (by simp)
+        split
+        · exact base2 _ (by simp)
+        next jnew _ =>
+        cases jnew with
+        | name nm =>
+          simp only
+          rw [findOrAddNonInt_off m2 hL2.off]
+          exact base2 _ (by simp)
+        | lvl i =>
+          simp only
+          have k3 := findOrAdd_kept m2 hI2 hL2.off i (-1) 1 (fun _ => foaGuard_var m2 _)
+          have l3 := findOrAdd_lite ext m2 hL2 i (-1) 1
+          generalize findOrAdd i (-1) 1 m2 = res3 at k3 l3 ⊢
+          obtain ⟨r3, m3⟩ := res3
+          cases r3 with
+          | error e => exact ⟨k12.trans k3, l3.reErr⟩
+          | ok g =>
+            simp only
+            have k4 := ite_total m3 k3.inv l3.1.off g q p
+            have l4 := ite_lite ext g q p m3 l3.1
+            generalize ite g q p m3 = res4 at k4 l4 ⊢
+            obtain ⟨r4, m4⟩ := res4
+            cases r4 with
+            | error e => exact ⟨(k12.trans k3).trans k4, l4.reErr⟩
+            | ok r =>
+              simp only
+              split
+              · exact ⟨(k12.trans k3).trans k4, l4.1, by simp⟩
+              · exact ⟨(k12.trans k3).trans k4, l4.1, by simp⟩
+
+/-- the branch of `_preimage_of` for partners that are not neighbours: ANY arguments -/
+theorem preimageFallback_kl (ext : Nat → Nat) (t s : Int) (rn : List (Key × Key)) (q : List Nat)
+    (fa : Bool) (m : Mgr) (hI : Inv m) (hL : Lite ext m) :
+    Kept m (preimageFallback t s rn q fa m).2 ∧ LiteOut ext (preimageFallback t s rn q fa m) := by
+  unfold preimageFallback
+  obtain ⟨k1, l1⟩ := copyBddK_kl ext (preimageLevelMap m.nvars rn) (m.nvars + 2) s {} m hI hL
+  generalize copyBddK (preimageLevelMap m.nvars rn) (m.nvars + 2) s {} m = res1 at k1 l1 ⊢
+  obtain ⟨r1, m1⟩ := res1
+  cases r1 with
+  | error e => exact ⟨k1, l1.reErr⟩
+  | ok rc =>
+    obtain ⟨r, c⟩ := rc
+    simp only
+    have k2 := ite_total m1 k1.inv l1.1.off t r (-1)
+    have l2 := ite_lite ext t r (-1) m1 l1.1
+    generalize ite t r (-1) m1 = res2 at k2 l2 ⊢
+    obtain ⟨r2, m2⟩ := res2
+    cases r2 with
+    | error e => exact ⟨k1.trans k2, l2.reErr⟩
+    | ok r2 =>
+      simp only
+      exact ⟨(k1.trans k2).trans (quantify_total m2 ext k2.inv l2.1.exact l2.1.off r2 _ fa),
+        quantify_lite ext r2 _ fa m2 l2.1⟩
+
 /-- the decorated body `_preimage_of`: ANY arguments, reordering not enabled -/
 theorem preimageBody_kl (ext : Nat → Nat) (t s : Int) (rn : List (Key × Key)) (q : List Key)
     (fa : Bool) (m : Mgr) (hI : Inv m) (hL : Lite ext m) :
@@ -281,20 +388,22 @@ theorem preimageBody_kl (ext : Nat → Nat) (t s : Int) (rn : List (Key × Key))
     | error e => exact base _ (by simpa using hn)
     | ok _ =>
       simp only
-      obtain ⟨k, l⟩ := imageF_kl ext none (some (intPairs (resolveRename m1.tbl rn))) []
-        (badKeys (resolveRename m1.tbl rn)) lv fa (2 * m1.nvars + 4) t s {} m1 hI hL
-      generalize imageF none (some (intPairs (resolveRename m1.tbl rn))) []
-        (badKeys (resolveRename m1.tbl rn)) lv fa (2 * m1.nvars + 4) t s {} m1 = res at k l ⊢
-      obtain ⟨r, m2⟩ := res
-      cases r with
-      | error e =>
-        simp only
-        refine ⟨k, l.1, ?_⟩
-        have := l.2
-        by_cases hf : e = .fuel
-        · simp [hf]
-        · simpa [hf] using this
-      | ok rc => simp only; exact ⟨k, l.1, by simp⟩
+      split
+      · obtain ⟨k, l⟩ := imageF_kl ext none (some (intPairs (resolveRename m1.tbl rn))) []
+          (badKeys (resolveRename m1.tbl rn)) lv fa (2 * m1.nvars + 4) t s {} m1 hI hL
+        generalize imageF none (some (intPairs (resolveRename m1.tbl rn))) []
+          (badKeys (resolveRename m1.tbl rn)) lv fa (2 * m1.nvars + 4) t s {} m1 = res at k l ⊢
+        obtain ⟨r, m2⟩ := res
+        cases r with
+        | error e =>
+          simp only
+          refine ⟨k, l.1, ?_⟩
+          have := l.2
+          by_cases hf : e = .fuel
+          · simp [hf]
+          · simpa [hf] using this
+        | ok rc => simp only; exact ⟨k, l.1, by simp⟩
+      · exact preimageFallback_kl ext t s _ lv fa m1 hI hL
 
 /-- the decorator around a body that keeps the invariant and never raises the signal (reordering
 not enabled) -/
